@@ -1056,7 +1056,7 @@ def header_wire_meaning(h, hb, f):
     h.oblige("vendor data length, high byte first = message length", hb[18] * 256 + hb[19] == f["message_length"])
 
 
-@oset("at5.hdr.encode", ["C03", "C04"], [HDR + ":HeaderEncoder.encode"], assumptions=HDR_ORACLE)
+@oset("at5.hdr.encode", ["C03", "C04", "C01"], [HDR + ":HeaderEncoder.encode"], assumptions=HDR_ORACLE)
 def hdr_encode(h):
     """Precondition for a frame: addresses / ids 0..255 and message length 0..65523 (12 + length must
     fit the 16-bit outer length).  Inside it encode never raises; beyond it no frame is produced."""
@@ -1116,7 +1116,7 @@ def hdr_decode(h):
     h.cover("header accepted")
 
 
-@oset("at5.hdr.roundtrip", ["C03"], [HDR + ":HeaderEncoder.encode", HDR + ":HeaderDecoder.decode"], assumptions=HDR_ORACLE)
+@oset("at5.hdr.roundtrip", ["C03", "C01"], [HDR + ":HeaderEncoder.encode", HDR + ":HeaderDecoder.decode"], assumptions=HDR_ORACLE)
 def hdr_roundtrip(h):
     f = header_fields(h)
     hdr = h.new(HDR + ":At5Header", **f)
@@ -1199,7 +1199,7 @@ def check_table(h, what, enc_map, dec_map, table):
             h.oblige(tag + f"{mc}.message_id is the id", bool(mid.ok and h.eq(mid.value, key) is True))
 
 
-@oset("at5.registry.registration-table", ["C03", "C17"], [REG + ":INSTANCE"], kind="frame")
+@oset("at5.registry.registration-table", ["C03", "C17", "C19"], [REG + ":INSTANCE"], kind="frame")
 def reg_table(h):
     """The concrete registration state built at import: every id maps to the encoder / decoder of the
     module that owns the id, and that module's message classes announce the same id (a swapped
